@@ -273,6 +273,11 @@ def _pe(t: T, asg):
         if v is None and not (t0.op == "getitem" and t0.args[1].op == "const" and t0.args[1].args[0] in asg):
             return _UNKNOWN
         return v
+    if t0.op == "binop" and t0.args[0] == "+":
+        a, b = _pe(t0.args[1], asg), _pe(t0.args[2], asg)
+        if isinstance(a, str) and isinstance(b, str):
+            return a + b                      # a method name assembled from option-selected pieces
+        return _UNKNOWN
     if t0.op == "getitem":
         base = strip_wrappers(t0.args[0])
         key = _pe(t0.args[1], asg)
